@@ -106,7 +106,7 @@ SPEC = {
         "token_progress", "token_error_in_input", "token_no_panic", "spans_tile", "reemit_reproduces_input",
         "error_pos_in_range", "tokens_before_error_tile", "lexing_terminates", "read_never_panics",
         "literalIntWith_closed", "int_value_exact", "int_overflow_rejected", "int_rejected_only_when_too_large",
-        "literalInt_radix", "token_numeric_dispatch", "lex_float_nearest", "nearest64_unfold",
+        "literalInt_radix", "token_numeric_dispatch", "lex_float_nearest", "nearest64_total", "nearest64_correct", "nearest64_zero",
         "nearest_correct_partial", "nearest_correct", "nearest_exact_on_representable"]],
     "harness": "c10",
     "nontrivial": nontrivial,
